@@ -11,7 +11,8 @@
    does not flag a lazily filled cache;
    (the second pass of ``members`` -- plotting members, members with arguments -- and the mask forms:
    selftest/test_registry_members.py);
- * the C15 helpers (homogeneity degree, leaf comparison, unit expectation).
+ * the C15 helpers (homogeneity degree, leaf comparison, unit expectation);
+   (one companion at a time, table forms and the deep table snapshot: selftest/test_registry_tables.py).
 """
 import os
 import sys
@@ -43,6 +44,8 @@ check(cov['public_callables'] >= 140, 'public API walk found too few callables')
 # -- every recipe runs -------------------------------------------------------------
 nsteps = 0
 for name in R.RECIPES:
+    if 'table forms' in name:
+        continue       # the table-form products (hundreds of fits): selftest/test_registry_tables.py
     c = R.run_recipe(name, 'ndarray', 'clean', 0)
     check(c is not None and c.steps, f'recipe {name}: no steps')
     if c is None:
